@@ -301,8 +301,8 @@ theorem chomp_sandwich (lead t : Bytes) (y0 y1 : UInt8) (Y' Y'' : Bytes)
     exact takeWhile_stop isSpace lead y0 _ hl hy0
   have h2 : (lead ++ (y0 :: Y') ++ t).reverse.takeWhile isSpace = t.reverse := by
     rw [hY]
-    simp only [List.reverse_append, List.reverse_cons, List.reverse_nil, List.nil_append,
-      List.singleton_append, List.append_assoc, List.cons_append]
+    simp only [List.reverse_append, List.reverse_cons, List.nil_append,
+      List.append_assoc, List.cons_append]
     exact takeWhile_stop isSpace t.reverse y1 _ (fun x hx => ht x (by simpa using hx)) hy1
   unfold chomp
   simp only [chompStart_eq, chompEnd_eq, h1, h2, List.length_reverse]
@@ -315,7 +315,7 @@ theorem chomp_sandwich (lead t : Bytes) (y0 y1 : UInt8) (Y' Y'' : Bytes)
     omega
   rw [e1, e2]
   have hget : (lead ++ (y0 :: Y') ++ t).getD (0 + lead.length) 0 = y0 := by
-    simp [List.getD_eq_getElem?_getD, List.getElem?_append_left, List.getElem?_append_right]
+    simp [List.getD_eq_getElem?_getD]
   rw [hget, hy0]
   have c1 : ¬ (lead.length + (Y''.length + 1) + t.length - t.length < 0 + lead.length + 1) := by omega
   simp only [c1, if_false, Bool.and_false, Bool.false_eq_true]
@@ -1344,14 +1344,14 @@ theorem foldl_body_some (body : List IniSpec.Line) (S : List Section) (n : Bytes
     cases hb : l.body with
     | blank ws =>
       have : rlineEffect ⟨S, some ⟨n, ks⟩⟩ (RLine.body l) = ⟨S, some ⟨n, ks⟩⟩ := by simp [rlineEffect, hb, bodyEffect]
-      rw [this, ih]; simp [IniSpec.entriesOf, List.filterMap_cons, hb]
+      rw [this, ih]; simp [IniSpec.entriesOf, hb]
     | comment lead c =>
       have : rlineEffect ⟨S, some ⟨n, ks⟩⟩ (RLine.body l) = ⟨S, some ⟨n, ks⟩⟩ := by simp [rlineEffect, hb, bodyEffect]
-      rw [this, ih]; simp [IniSpec.entriesOf, List.filterMap_cons, hb]
+      rw [this, ih]; simp [IniSpec.entriesOf, hb]
     | entry e =>
       have : rlineEffect ⟨S, some ⟨n, ks⟩⟩ (RLine.body l) = ⟨S, some ⟨n, (e.key, e.value) :: ks⟩⟩ := by
         simp [rlineEffect, hb, bodyEffect, addKey]
-      rw [this, ih]; simp [IniSpec.entriesOf, List.filterMap_cons, hb]
+      rw [this, ih]; simp [IniSpec.entriesOf, hb]
 
 /-- a whole section block: push what was current, start the new section, collect its keys -/
 def secStep (st : PState) (s : IniSpec.Sec) : PState := ⟨pushSection st, some (secOf s)⟩
@@ -1408,5 +1408,436 @@ theorem parse_render_nosections (σ : IniSpec.Style) (d : IniSpec.Doc) (hwf : In
   unfold parse parseWith
   rw [hskip, foldl_render σ d hwf, foldl_doc, hs]
   rfl
+
+/-! ## what the API shows of a parsed file -/
+
+/-- every listed section with its keys (each once, in listing order) and the value a lookup returns -/
+def fileView (f : IniFile) : List (Bytes × List (Bytes × Bytes)) :=
+  (sections f).map fun n => (n, (keys f n).eraseDups.map fun k => (k, (parameterString f n k none).getD []))
+
+def sectionView (x : Section) : Bytes × List (Bytes × Bytes) :=
+  (x.name, (x.keys.map (·.1)).reverse.eraseDups.map fun k => (k, ((x.keys.find? (·.1 == k)).map (·.2)).getD []))
+
+theorem findSection_of_inj (f : IniFile) (hinj : ∀ x ∈ f, ∀ y ∈ f, x.name = y.name → x = y)
+    (x : Section) (hx : x ∈ f) : findSection f x.name = some x := by
+  induction f with
+  | nil => simp at hx
+  | cons y f' ih =>
+    unfold findSection
+    simp only [List.find?_cons]
+    by_cases hy : y.name = x.name
+    · have : y = x := hinj y (by simp) x hx hy
+      subst this; simp
+    · have hne : (y.name == x.name) = false := by simp [hy]
+      simp only [hne]
+      have hx' : x ∈ f' := by
+        simp only [List.mem_cons] at hx
+        rcases hx with hx | hx
+        · subst hx; exact absurd rfl hy
+        · exact hx
+      exact ih (fun a ha b hb => hinj a (by simp [ha]) b (by simp [hb])) hx'
+
+theorem parameterString_none (f : IniFile) (n k : Bytes) : parameterString f n k none = findParameter f n k := by
+  unfold parameterString; cases findParameter f n k <;> rfl
+
+theorem fileView_eq (f : IniFile) (hinj : ∀ x ∈ f, ∀ y ∈ f, x.name = y.name → x = y) :
+    fileView f = f.reverse.map sectionView := by
+  unfold fileView
+  rw [sections_eq, ← List.map_reverse, List.map_map]
+  apply List.map_congr_left
+  intro x hx
+  have hx' : x ∈ f := by simpa using hx
+  have hf := findSection_of_inj f hinj x hx'
+  simp only [Function.comp, sectionView, keys_of_find f x.name x hf, parameterString_none]
+  congr 1
+  apply List.map_congr_left
+  intro k _
+  simp [findParameter, hf]
+
+theorem sectionView_secOf (s : IniSpec.Sec) :
+    sectionView (secOf s) = (s.header.name, IniSpec.assoc (IniSpec.entriesOf s.body)) := by
+  simp [sectionView, secOf, IniSpec.assoc, IniSpec.lastValue, List.map_reverse]
+
+theorem view_filter (l : List IniSpec.Sec) :
+    ((l.map secOf).filter hasKeys).map sectionView = IniSpec.meaningOf l := by
+  induction l with
+  | nil => rfl
+  | cons s rest ih =>
+    simp only [List.map_cons, List.filter_cons, IniSpec.meaningOf, List.filterMap_cons]
+    have hk : hasKeys (secOf s) = !(IniSpec.entriesOf s.body).isEmpty := by simp [hasKeys, secOf]
+    rw [hk]
+    by_cases he : (IniSpec.entriesOf s.body).isEmpty = true
+    · simp only [he, Bool.not_true, Bool.false_eq_true, if_false, if_true]
+      exact ih
+    · simp only [he, Bool.not_false, if_true, Bool.false_eq_true, if_false, List.map_cons, sectionView_secOf]
+      have : IniSpec.meaningOf rest = List.filterMap (fun s =>
+          if (IniSpec.entriesOf s.body).isEmpty = true then none
+          else some (s.header.name, IniSpec.assoc (IniSpec.entriesOf s.body))) rest := rfl
+      rw [← this, ← ih]
+
+theorem distinct_inj {α} (g : α → Bytes) (l : List α) (h : IniSpec.distinct (l.map g) = true) :
+    ∀ a ∈ l, ∀ b ∈ l, g a = g b → a = b := by
+  induction l with
+  | nil => intro a ha; simp at ha
+  | cons x rest ih =>
+    simp only [List.map_cons, IniSpec.distinct, Bool.and_eq_true, Bool.not_eq_true', List.contains_eq_mem,
+      decide_eq_false_iff_not, List.mem_map, not_exists, not_and] at h
+    intro a ha b hb hab
+    simp only [List.mem_cons] at ha hb
+    rcases ha with ha | ha <;> rcases hb with hb | hb
+    · rw [ha, hb]
+    · subst ha; exact absurd hab.symm (h.1 b hb)
+    · subst hb; exact absurd hab (h.1 a ha)
+    · exact ih h.2 a ha b hb hab
+
+/-- the API view of the parsed rendering: the last section first, then the others in file order -/
+theorem fileView_parse_render (σ : IniSpec.Style) (d : IniSpec.Doc) (hwf : IniSpec.WF σ d = true)
+    (init : List IniSpec.Sec) (last : IniSpec.Sec) (hs : d.secs = init ++ [last]) :
+    fileView (parse (IniSpec.render σ d)) = IniSpec.meaningOf [last] ++ IniSpec.meaningOf init := by
+  rw [parse_render_sections σ d hwf init last hs]
+  have hd : IniSpec.distinct (d.secs.map (·.header.name)) = true := by
+    simp only [IniSpec.WF, Bool.and_eq_true] at hwf
+    exact hwf.1.1.2
+  have hinjS := distinct_inj (fun s : IniSpec.Sec => s.header.name) d.secs hd
+  rw [fileView_eq]
+  · simp only [List.reverse_append, List.reverse_reverse, List.map_append]
+    rw [view_filter init]
+    have : ([secOf last].filter hasKeys).reverse = ([last].map secOf).filter hasKeys := by
+      simp only [List.map_cons, List.map_nil, List.filter_cons, List.filter_nil]
+      cases hasKeys (secOf last) <;> rfl
+    rw [this, view_filter [last]]
+  · -- names are injective on the parsed sections
+    have hmem : ∀ x ∈ ((init.map secOf).filter hasKeys).reverse ++ [secOf last].filter hasKeys,
+        ∃ s ∈ d.secs, x = secOf s := by
+      intro x hx
+      simp only [List.mem_append, List.mem_reverse, List.mem_filter, List.mem_map, List.mem_cons,
+        List.not_mem_nil, or_false] at hx
+      rcases hx with ⟨⟨s, hs', rfl⟩, _⟩ | ⟨rfl, _⟩
+      · exact ⟨s, by rw [hs]; simp [hs'], rfl⟩
+      · exact ⟨last, by rw [hs]; simp, rfl⟩
+    intro x hx y hy hxy
+    obtain ⟨s1, hs1, rfl⟩ := hmem x hx
+    obtain ⟨s2, hs2, rfl⟩ := hmem y hy
+    have : s1 = s2 := hinjS s1 hs1 s2 hs2 (by simpa [secOf] using hxy)
+    rw [this]
+
+/-! ## getters -/
+
+theorem isKeyExists_iff (f : IniFile) (n k : Bytes) : isKeyExists f n k = (findParameter f n k).isSome := by
+  unfold isKeyExists findParameter
+  cases findSection f n with
+  | none => rfl
+  | some s =>
+    simp only [Option.isSome_map]
+    induction s.keys with
+    | nil => rfl
+    | cons p rest ih =>
+      simp only [List.any_cons, List.find?_cons]
+      cases (p.1 == k) <;> simp [ih]
+
+theorem atoiDigits_numeral (neg : Bool) (ds rest : Bytes) (hds : ∀ d ∈ ds, isDigit d = true)
+    (hrest : ∀ r ∈ rest.head?, isDigit r = false) :
+    atoiDigits neg (ds ++ rest) = match IniSpec.intValue neg ds with
+      | some v => .val v
+      | none => .overflow := by
+  have htw : (ds ++ rest).takeWhile isDigit = ds := by
+    cases rest with
+    | nil => simpa using takeWhile_all isDigit _ hds
+    | cons r rest' => exact takeWhile_stop isDigit _ r rest' hds (hrest r (by simp))
+  have hval : digitsValue ds = IniSpec.decimal ds := rfl
+  unfold atoiDigits IniSpec.intValue
+  simp only [htw, hval]
+  split <;> (split <;> rfl)
+
+theorem atoi_numeral (ws : Bytes) (sign : Option Bool) (ds rest : Bytes) (hws : AllSpace ws)
+    (hds : ∀ d ∈ ds, isDigit d = true) (hne : ds ≠ [])
+    (hrest : ∀ r ∈ rest.head?, isDigit r = false) :
+    atoi (ws ++ (match sign with | none => [] | some true => [45] | some false => [43]) ++ ds ++ rest)
+      = match IniSpec.intValue (sign == some true) ds with
+        | some v => .val v
+        | none => .overflow := by
+  obtain ⟨d0, ds', rfl⟩ : ∃ d0 ds', ds = d0 :: ds' := by
+    cases ds with
+    | nil => exact absurd rfl hne
+    | cons a b => exact ⟨a, b, rfl⟩
+  have hd0 : isDigit d0 = true := hds d0 (by simp)
+  have hd0s : isSpace d0 = false := by
+    simp only [isDigit, Bool.and_eq_true, decide_eq_true_eq] at hd0
+    simp only [isSpace, Bool.or_eq_false_iff, beq_eq_false_iff_ne, ne_eq, Bool.and_eq_false_iff,
+      decide_eq_false_iff_not]
+    refine ⟨?_, Or.inr ?_⟩
+    · intro h; subst h; exact absurd hd0.1 (by decide)
+    · intro h; exact absurd (UInt8.le_trans hd0.1 h) (by decide)
+  have hd45 : d0 ≠ 45 := by intro h; subst h; revert hd0; decide
+  have hd43 : d0 ≠ 43 := by intro h; subst h; revert hd0; decide
+  unfold atoi
+  cases sign with
+  | none =>
+    have h1 : (ws ++ [] ++ (d0 :: ds') ++ rest).dropWhile isSpace = d0 :: (ds' ++ rest) := by
+      simpa using dropWhile_stop isSpace ws d0 (ds' ++ rest) hws hd0s
+    simp only [h1]
+    split
+    · rename_i h; injection h with h _; exact absurd h hd45
+    · rename_i h; injection h with h _; exact absurd h hd43
+    · exact atoiDigits_numeral false (d0 :: ds') rest hds hrest
+  | some neg =>
+    cases neg with
+    | true =>
+      have h1 : (ws ++ [45] ++ (d0 :: ds') ++ rest).dropWhile isSpace = 45 :: ((d0 :: ds') ++ rest) := by
+        simpa using dropWhile_stop isSpace ws 45 ((d0 :: ds') ++ rest) hws (by decide)
+      simp only [h1]
+      exact atoiDigits_numeral true (d0 :: ds') rest hds hrest
+    | false =>
+      have h1 : (ws ++ [43] ++ (d0 :: ds') ++ rest).dropWhile isSpace = 43 :: ((d0 :: ds') ++ rest) := by
+        simpa using dropWhile_stop isSpace ws 43 ((d0 :: ds') ++ rest) hws (by decide)
+      simp only [h1]
+      exact atoiDigits_numeral false (d0 :: ds') rest hds hrest
+
+theorem toBoolean_words :
+    toBoolean strTrue = .val true ∧ toBoolean strTRUE = .val true ∧
+    toBoolean strFalse = .val false ∧ toBoolean strFALSE = .val false ∧
+    toBoolean [49] = .val true ∧ toBoolean [48] = .val false := by decide
+
+theorem toBoolean_numeric (v : Bytes) (h1 : v ≠ strTrue) (h2 : v ≠ strTRUE) (h3 : v ≠ strFalse) (h4 : v ≠ strFALSE) :
+    toBoolean v = match atoi v with
+      | .val i => .val (decide (i > 0))
+      | .overflow => .overflow := by
+  have e1 : (v == strTrue) = false := by simp [h1]
+  have e2 : (v == strTRUE) = false := by simp [h2]
+  have e3 : (v == strFalse) = false := by simp [h3]
+  have e4 : (v == strFALSE) = false := by simp [h4]
+  unfold toBoolean
+  rw [e1, e2, e3, e4]
+  cases atoi v <;> rfl
+
+/-- a list item: no white space, NUL or closing brace inside -/
+def ItemBytes (it : Bytes) : Prop := ∀ b ∈ it, isSpace b = false ∧ b ≠ 0 ∧ b ≠ 125
+
+theorem listLoop_item (it rest buf : Bytes) (acc : List Bytes) (h : ItemBytes it) :
+    listLoop (it ++ rest) buf acc = listLoop rest (it.reverse ++ buf) acc := by
+  induction it generalizing buf with
+  | nil => rfl
+  | cons c it ih =>
+    obtain ⟨hs, h0, h125⟩ := h c (by simp)
+    have e0 : (c == 0) = false := by simp [h0]
+    have e1 : (c == 125) = false := by simp [h125]
+    simp only [List.cons_append, listLoop, e0, e1, Bool.or_self, Bool.false_eq_true, if_false, hs, Bool.not_false, if_true]
+    rw [ih (c :: buf) (fun b hb => h b (by simp [hb]))]
+    simp
+
+theorem listLoop_spaces (ws rest : Bytes) (acc : List Bytes) (h : AllSpace ws) :
+    listLoop (ws ++ rest) [] acc = listLoop rest [] acc := by
+  induction ws with
+  | nil => rfl
+  | cons c ws ih =>
+    have hs : isSpace c = true := h c (by simp)
+    have e0 : (c == 0) = false := by
+      simp only [beq_eq_false_iff_ne, ne_eq]; intro e; subst e; revert hs; decide
+    have e1 : (c == 125) = false := by
+      simp only [beq_eq_false_iff_ne, ne_eq]; intro e; subst e; revert hs; decide
+    simp only [List.cons_append, listLoop, e0, e1, Bool.or_self, Bool.false_eq_true, if_false, hs, Bool.not_true,
+      List.isEmpty_nil, if_true]
+    exact ih (fun b hb => h b (by simp [hb]))
+
+theorem listLoop_sep (sep rest buf : Bytes) (acc : List Bytes) (h : AllSpace sep) (hne : sep ≠ []) (hb : buf ≠ []) :
+    listLoop (sep ++ rest) buf acc = listLoop rest [] (buf.reverse :: acc) := by
+  cases sep with
+  | nil => exact absurd rfl hne
+  | cons c sep' =>
+    have hs : isSpace c = true := h c (by simp)
+    have e0 : (c == 0) = false := by
+      simp only [beq_eq_false_iff_ne, ne_eq]; intro e; subst e; revert hs; decide
+    have e1 : (c == 125) = false := by
+      simp only [beq_eq_false_iff_ne, ne_eq]; intro e; subst e; revert hs; decide
+    have hbe : buf.isEmpty = false := by cases buf with | nil => exact absurd rfl hb | cons _ _ => rfl
+    simp only [List.cons_append, listLoop, e0, e1, Bool.or_self, Bool.false_eq_true, if_false, hs, Bool.not_true, hbe]
+    exact listLoop_spaces sep' rest _ (fun b hb => h b (by simp [hb]))
+
+theorem listLoop_items (items : List (Bytes × Bytes)) (last : Option Bytes) (acc : List Bytes)
+    (hi : ∀ p ∈ items, p.1 ≠ [] ∧ ItemBytes p.1 ∧ p.2 ≠ [] ∧ AllSpace p.2)
+    (hl : ∀ it ∈ last, it ≠ [] ∧ ItemBytes it) :
+    listLoop ((items.flatMap fun p => p.1 ++ p.2) ++ (last.getD [] ++ [125])) [] acc
+      = acc.reverse ++ items.map (·.1) ++ last.toList := by
+  induction items generalizing acc with
+  | nil =>
+    cases last with
+    | none => simp [listLoop]
+    | some it =>
+      obtain ⟨hne, hit⟩ := hl it (by simp)
+      have := listLoop_item it [125] [] acc hit
+      simp only [List.flatMap_nil, List.nil_append, Option.getD_some, this, List.append_nil]
+      have hbe : it.reverse.isEmpty = false := by
+        cases it with | nil => exact absurd rfl hne | cons _ _ => simp
+      simp [listLoop, hbe]
+  | cons p rest ih =>
+    obtain ⟨h1, h2, h3, h4⟩ := hi p (by simp)
+    have e : ((p :: rest).flatMap fun p => p.1 ++ p.2) ++ (last.getD [] ++ [125])
+        = p.1 ++ (p.2 ++ ((rest.flatMap fun p => p.1 ++ p.2) ++ (last.getD [] ++ [125]))) := by
+      simp [List.flatMap_cons, List.append_assoc]
+    rw [e, listLoop_item p.1 _ [] acc h2, List.append_nil,
+      listLoop_sep p.2 _ p.1.reverse acc h4 h3 (by simpa using h1), List.reverse_reverse,
+      ih (p.1 :: acc) (fun q hq => hi q (by simp [hq]))]
+    simp
+
+/-- `{a b c}` is read as its items -/
+theorem toList_listText (lead : Bytes) (items : List (Bytes × Bytes)) (last : Option Bytes) (hlead : AllSpace lead)
+    (hi : ∀ p ∈ items, p.1 ≠ [] ∧ ItemBytes p.1 ∧ p.2 ≠ [] ∧ AllSpace p.2)
+    (hl : ∀ it ∈ last, it ≠ [] ∧ ItemBytes it) :
+    toList (IniSpec.listText lead items last) = items.map (·.1) ++ last.toList := by
+  have hshape : IniSpec.listText lead items last
+      = 123 :: (lead ++ ((items.flatMap fun p => p.1 ++ p.2) ++ (last.getD [] ++ [125]))) := by
+    simp [IniSpec.listText, List.append_assoc]
+  rw [hshape]
+  unfold toList
+  have h0 : bufAt (123 :: (lead ++ ((items.flatMap fun p => p.1 ++ p.2) ++ (last.getD [] ++ [125])))) 0 = 123 := by
+    simp [bufAt]
+  have hl' : (123 :: (lead ++ ((items.flatMap fun p => p.1 ++ p.2) ++ (last.getD [] ++ [125])))).getLast? = some 125 :=
+    List.getLast?_eq_some_iff.mpr ⟨123 :: (lead ++ ((items.flatMap fun p => p.1 ++ p.2) ++ last.getD [])), by simp⟩
+  simp only [h0, hl', bne_self_eq_false, Bool.or_false, List.drop_succ_cons, List.drop_zero]
+  by_cases hshort : (123 :: (lead ++ ((items.flatMap fun p => p.1 ++ p.2) ++ (last.getD [] ++ [125])))).length < 3
+  · -- only `{}` is that short
+    simp only [hshort, decide_true, if_true]
+    simp only [List.length_cons, List.length_append, List.length_nil] at hshort
+    have hitems : items = [] := by
+      cases items with
+      | nil => rfl
+      | cons p rest =>
+        have := (hi p (by simp)).1
+        have : p.1.length > 0 := List.length_pos_iff.mpr this
+        simp only [List.flatMap_cons, List.length_append] at hshort
+        omega
+    have hlast : last = none := by
+      cases last with
+      | none => rfl
+      | some it =>
+        have := (hl it (by simp)).1
+        have : it.length > 0 := List.length_pos_iff.mpr this
+        simp only [Option.getD_some] at hshort
+        omega
+    simp [hitems, hlast]
+  · simp only [hshort, decide_false, Bool.false_eq_true, if_false]
+    rw [listLoop_spaces lead _ [] hlead, listLoop_items items last [] hi hl]
+    simp
+
+/-! ## robustness: what is stored fits the fixed buffers of the getters -/
+
+def SectionFits (s : Section) : Prop :=
+  s.name.length ≤ maxLine ∧ ∀ kv ∈ s.keys, kv.1.length ≤ maxLine ∧ kv.2.length ≤ maxLine
+
+def StateFits (st : PState) : Prop := (∀ s ∈ st.sections, SectionFits s) ∧ ∀ s ∈ st.cur, SectionFits s
+
+theorem pushSection_fits (st : PState) (h : StateFits st) : ∀ s ∈ pushSection st, SectionFits s := by
+  unfold pushSection
+  cases hc : st.cur with
+  | none => simpa using h.1
+  | some sec =>
+    simp only
+    split
+    · exact h.1
+    · intro s hs
+      simp only [List.mem_cons] at hs
+      rcases hs with hs | hs
+      · subst hs; exact h.2 s (by simp [hc])
+      · exact h.1 s hs
+
+theorem stepLine_fits (skip : Bool) (st : PState) (l : Bytes) (h : StateFits st) : StateFits (stepLine skip st l) := by
+  unfold stepLine
+  split
+  · refine ⟨pushSection_fits st h, ?_⟩
+    intro s hs
+    simp only [Option.mem_def, Option.some.injEq] at hs
+    subst hs
+    exact ⟨clip_length_le_max _, by intro kv hkv; simp at hkv⟩
+  · split
+    · exact h
+    · split
+      · exact h
+      · rename_i k v _
+        cases hc : st.cur with
+        | none => simpa [hc] using h
+        | some sec =>
+          simp only
+          refine ⟨h.1, ?_⟩
+          intro s hs
+          simp only [Option.mem_def, Option.some.injEq] at hs
+          subst hs
+          have hsec := h.2 sec (by simp [hc])
+          refine ⟨hsec.1, ?_⟩
+          intro kv hkv
+          simp only [List.mem_cons] at hkv
+          rcases hkv with hkv | hkv
+          · subst hkv
+            refine ⟨clip_length_le_max _, ?_⟩
+            simp only
+            split
+            · simp
+            · exact clip_length_le_max _
+          · exact hsec.2 kv hkv
+
+theorem parseWith_fits (skip : Bool) (input : Bytes) : ∀ s ∈ parseWith skip input, SectionFits s := by
+  have hfold : ∀ (cs : List Bytes) (st : PState), StateFits st → StateFits (cs.foldl (step skip) st) := by
+    intro cs
+    induction cs with
+    | nil => intro st h; exact h
+    | cons c cs ih =>
+      intro st h
+      rw [List.foldl_cons]
+      apply ih
+      show StateFits (stepLine skip st (lineOf c))
+      exact stepLine_fits skip st _ h
+  have h0 : StateFits ⟨[], none⟩ := ⟨by intro s hs; simp at hs, by intro s hs; simp at hs⟩
+  have hfin := hfold (splitLines input) _ h0
+  unfold parseWith finish
+  cases hc : ((splitLines input).foldl (step skip) ⟨[], none⟩).cur with
+  | none => simpa using hfin.1
+  | some sec =>
+    simp only
+    split
+    · exact hfin.1
+    · intro s hs
+      simp only [List.mem_append, List.mem_singleton] at hs
+      rcases hs with hs | hs
+      · exact hfin.1 s hs
+      · subst hs; exact hfin.2 s (by simp [hc])
+
+theorem listLoop_fits (s buf : Bytes) (acc : List Bytes) (n : Nat) (hacc : ∀ it ∈ acc, it.length ≤ n)
+    (hb : buf.length + s.length ≤ n) : ∀ it ∈ listLoop s buf acc, it.length ≤ n := by
+  induction s generalizing buf acc with
+  | nil =>
+    intro it hit
+    simp only [listLoop] at hit
+    split at hit
+    · exact hacc it (by simpa using hit)
+    · simp only [List.reverse_cons, List.mem_append, List.mem_reverse, List.mem_singleton] at hit
+      rcases hit with hit | hit
+      · exact hacc it hit
+      · subst hit; simp at hb ⊢; omega
+  | cons c cs ih =>
+    intro it hit
+    simp only [listLoop] at hit
+    simp only [List.length_cons] at hb
+    split at hit
+    · split at hit
+      · exact hacc it (by simpa using hit)
+      · simp only [List.reverse_cons, List.mem_append, List.mem_reverse, List.mem_singleton] at hit
+        rcases hit with hit | hit
+        · exact hacc it hit
+        · subst hit; simp; omega
+    · split at hit
+      · exact ih (c :: buf) acc hacc (by simp; omega) it hit
+      · refine ih [] _ ?_ (by simp; omega) it hit
+        intro x hx
+        split at hx
+        · exact hacc x hx
+        · simp only [List.mem_cons] at hx
+          rcases hx with hx | hx
+          · subst hx; simp; omega
+          · exact hacc x hx
+
+theorem toList_fits (v : Bytes) : ∀ it ∈ toList v, it.length ≤ v.length := by
+  unfold toList
+  split
+  · intro it hit; simp at hit
+  · exact listLoop_fits (v.drop 1) [] [] v.length (by intro it hit; simp at hit) (by simp)
 
 end PV.Ini
